@@ -649,7 +649,10 @@ func (b *base) boundary(r *hx.Rng, tries int) (zb, hb []string) {
 	for i := 0; i < tries; i++ {
 		m := make([]byte, 8)
 		binary.BigEndian.PutUint64(m, r.U64())
-		sig, _ := b.sk.SignDeterministic(m, nil)
+		sig := signDet(b.sk, m, nil)
+		if sig == nil {
+			panic(errHang{p.name, hx.H(b.seed), hx.H(m)})
+		}
 		if n := sigZNorm(p, sig); n > zn {
 			zn, bestZ, bestZm = n, sig, m
 		}
@@ -725,7 +728,11 @@ func cheapMsgF(r *hx.Rng, b *base, rnd []byte, maxIt int, format func(msg []byte
 		var rr [32]byte
 		copy(rr[:], rnd)
 		mp := format(msg)
-		it := iterations(b.p, skEnc, mp, rr[:], imldsa.VerifSignInternal(b.sk, mp, rr))
+		var sig []byte
+		if !watchdog(func() { sig = imldsa.VerifSignInternal(b.sk, mp, rr) }) {
+			panic(errHang{b.p.name, hx.H(b.seed), hx.H(msg)})
+		}
+		it := iterations(b.p, skEnc, mp, rr[:], sig)
 		if it == 0 {
 			panic("cannot recover the number of signing rounds")
 		}
@@ -886,7 +893,10 @@ func genAll(r *hx.Rng, n int, tier string) []string {
 			v := []string{"T", "N", "X"}[(i+si+1)%3]
 			id := uint32(r.U64())
 			msg := msgOf(r)
-			sig, _ := b.sk.SignDeterministic(msg, nil)
+			sig := signDet(b.sk, msg, nil)
+			if sig == nil {
+				panic(errHang{p.name, hx.H(b.seed), hx.H(msg)})
+			}
 			prefix := []byte{}
 			if v == "T" {
 				prefix = []byte{1, byte(id >> 24), byte(id >> 16), byte(id >> 8), byte(id)}
